@@ -13,6 +13,9 @@ TIE = {"Lock": ["h_lock_agent_Run", "h_lock_agent_setup", "h_lock_agent_checkPre
                 "h_lock_sock_Request", "h_lock_client_GetCurrentStatus", "h_lock_dag_SockAddr"]}
 
 AG = {"A": 0, "B": 1, "C": 2}
+# what a definition saved over the active run's file differs in, and the `name:` key of the definition the run started from
+RESAVE_EDITS = [("name-added", ""), ("other-name", "nightly"), ("name-removed", "nightly"), ("other-description", "nightly"),
+                ("step-added", ""), ("other-params", ""), ("other-logdir", "nightly")]
 SIG_BOTH = "C16:simultaneous-starts-both-run"
 SIG_LOSER = "C16:simultaneous-starts-refused-start-recorded-a-run"
 SIG_LATE = "C16:endpoint-removed-by-finishing-run-next-start-not-refused"
@@ -41,7 +44,8 @@ def gen_cases(chk, binp):
 
     def add(**kw):
         c = dict(id="l%d" % len(cases), bin=binp, kind="start", phase="steps", atStep=1, delayUs=0, nsteps=3,
-                 stepMs=120, handMs=150, injectA="", injectB="", bStepMs=0, thirdAfterMs=0, retention=-1, backdateH=0, bVia="", resave="", freezeMs=0)
+                 stepMs=120, handMs=150, injectA="", injectB="", bStepMs=0, thirdAfterMs=0, retention=-1, backdateH=0, bVia="", resave="", freezeMs=0,
+                 resaveEdit="", nameBefore="")
         c.update(kw)
         cases.append(c)
 
@@ -117,6 +121,24 @@ def gen_cases(chk, binp):
             add(phase="together", nsteps=2, injectA="bind:delay_enter=300000:when=1", tag="bind-delay")
             add(phase="together", nsteps=2, injectA="connect:delay_exit=%d:when=1" % rng.randint(50000, 250000),
                 injectB="connect:delay_exit=%d:when=1" % rng.randint(50000, 450000), tag="window")
+    # the file saved again while the first run is active (as `resaved` above; generated last, so that the cases above keep
+    # their ids and instants), with a definition that DIFFERS from the one the run was started from: in its `name:`
+    # key (had none -> gets one; had one -> another; had one -> none), or in keys that have nothing to do with which file
+    # it is (description, one more step, params, logDir). The file is the same file at the same location: the second
+    # start / retry must be refused all the same, and `status <file>` / the API's status query of the re-saved file must
+    # still reach the first run. (The second command's own steps are short - bStepMs -: were it NOT refused, it would be
+    # over while the first run is still in its first step, so "a run was active during its whole life" stays decidable.)
+    four = (("start", "updatespec"), ("retry", "rename"), ("start", "rename"), ("retry", "updatespec"))
+    for i, (edit, before) in enumerate(RESAVE_EDITS):
+        if not quick:
+            combos = four * 2
+        elif "name" in edit:
+            combos = four[:3] if edit == "other-name" else four[:2]
+        else:
+            combos = (four[i % 4],)
+        for kind, resave in combos:
+            add(kind=kind, phase="steps", nsteps=2, atStep=1, stepMs=450, handMs=60, delayUs=rng.randint(0, 100000), bStepMs=20,
+                resave=resave, resaveEdit=edit, nameBefore=before, tag="resaved-edited")
     return cases
 
 
@@ -331,8 +353,20 @@ def monitor(chk, c, r):
                 out.append(("C16:active-run-endpoint-lost", "the first run's status endpoint stopped answering after a refused %s" % k))
             elif oh and r["ansPidAfter"] != oh[0]["pid"]:
                 out.append(("C16:active-run-endpoint-lost", "the status endpoint answers for another process after a refused %s" % k))
-            if r.get("statusCmd") not in ("", "running"):
+            # (the later queries - `status` command, file address, API - count only if the endpoint was certainly still open
+            #  when the last of them had returned)
+            later_ok = not r.get("queriesT") or r["queriesT"] < oclose[0]["t"] - 0.01
+            if r.get("statusCmd") not in ("", "running") and later_ok:
                 out.append(("C16:active-run-endpoint-lost", "`blackdagger status` says %s while the first run is alive" % r["statusCmd"]))
+            if c.get("resave") and "apiStatus" in r and r["ansAfterB"] and later_ok:
+                # ... FOR THAT FILE: the endpoint at the address derived from the definition as it is saved now, and the API's
+                # status query of the freshly loaded definition, still reach the first run
+                if not r["ansFileAfter"] or (oh and r["ansFilePid"] != oh[0]["pid"]):
+                    out.append(("C16:active-run-endpoint-lost", "the first run (listening on %s, answering there) is not reached at the status "
+                                "endpoint of its file as saved now (%s) after a refused %s" % (r["sock"], r["sockFile"], k)))
+                if r["apiStatus"] != "running" or (oh and r["apiPid"] != oh[0]["pid"]):
+                    out.append(("C16:active-run-endpoint-lost", "client.GetCurrentStatus of the re-saved file says %s (pid %s) while the first run "
+                                "(pid %s) is alive and answering" % (r["apiStatus"], r["apiPid"], oh[0]["pid"] if oh else "?")))
         om = [(m["step"], m["what"]) for m in markers_of(r) if m["ag"] == o]
         osteps = ["s%d" % c["nsteps"]] if (o == "B" and kind == "retry") else ["s%d" % i for i in range(1, c["nsteps"] + 1)]
         want = [(s, w) for s in osteps + ["hx"] for w in ("start", "end")]
@@ -502,8 +536,11 @@ def run(chk, replay):
                 chk.oblige("correspondence:lock:%s" % c["id"], False, detail + " case=" + json.dumps(c))
         stale += sum(1 for h in r["hist"] if h["status"] == 1 and h["nodes"] and all(n == 4 for n in h["nodes"]))
         vs = monitor(chk, c, r)
+        sfx = (":resaved-with-" + c["resaveEdit"]) if c.get("resaveEdit") else ""
         for sig, what in vs:
-            chk.violation(sig, what + " [%s second %s, phase %s]" % (c["id"], c["kind"], c["phase"]), c)
+            chk.violation(sig + sfx, what + " [%s second %s, phase %s%s]" % (c["id"], c["kind"], c["phase"], sfx and (
+                "; while the first run was active the file was saved again (%s) with %s, first run's definition had name: %r" % (
+                    c["resave"], c["resaveEdit"], c.get("nameBefore", "")))), c)
         pp = probe_position(c, r)
         pos[pp] = pos.get(pp, 0) + 1
         oc = "/".join(observed_verdict(c, r, a)["cls"] for a in agents_of(r))
@@ -517,7 +554,7 @@ def run(chk, replay):
                 witness_both = True
         outcome[oc] = outcome.get(oc, 0) + 1
         if c["phase"] != "after":
-            chk.nontrivial.add((c["kind"], c["phase"], c.get("bVia", ""), c.get("resave", ""), bool(c.get("freezeMs")), pp, oc, c["delayUs"] // 10000))
+            chk.nontrivial.add((c["kind"], c["phase"], c.get("bVia", ""), c.get("resave", ""), c.get("resaveEdit", ""), bool(c.get("freezeMs")), pp, oc, c["delayUs"] // 10000))
         if len(chk.samples) < 6 and (len(chk.samples) < 3 or vs):
             chk.samples.append({"case": {k: v for k, v in c.items() if k != "bin"}, "probe_position": pp, "outcome": oc,
                                 "model": d and {k: v["pc"] for k, v in d["ag"].items()}, "monitor": [s for s, _ in vs]})
@@ -528,5 +565,8 @@ def run(chk, replay):
                  "stale_final_status(last record says running, every node finished; C08's subject)": stale}
     chk.rule = ("second start / retry launched at PRNG instants of the first run's life (before its socket listens, during each step, "
                 "during the exit handler, through shutdown, after the end) + simultaneous starts (natural, and with strace delays that "
-                "force the model's witness interleavings, incl. a three-process one: finishing run / next run / third start); all processes under strace; non-trivial = second command issued while the "
+                "force the model's witness interleavings, incl. a three-process one: finishing run / next run / third start); second start / retry after the file "
+                "was saved again while the first run is active (rename-over / the real UpdateSpec; new inode), with the same definition and with one that "
+                "differs in its name: key (added / another / removed), description, steps, params, logDir - then also `status <file>` and "
+                "client.GetCurrentStatus of the re-saved file must reach the first run; all processes under strace; non-trivial = second command issued while the "
                 "first process is alive; distinct = (kind, phase, probe position, outcome, 10 ms bucket of the instant)")
